@@ -576,7 +576,11 @@ def search_cgr(ck, x, rng):
     ck.case(('cgr-renumber', idx), nontrivial=True)
     if s1 != s2:
         rr = rx_repr(r2)
-        ck.counterexample(f'cgr-renumber-string:{s1}', 'the canonical string of the condensed graph depends on the (consistent) numbering of the sides',
+        ats = [a for _, a in h.atoms()]
+        collide = any(hash(a) == hash(c) and a != c and {a.charge, c.charge} | {a.p_charge, c.p_charge} >= {-1, -2}
+                      for i, a in enumerate(ats) for c in ats[i + 1:])
+        # CPython: hash(-1) == hash(-2); atoms that differ only in a charge of -1 / -2 get the same Morgan label (known finding)
+        ck.counterexample('cgr-renumber-string:hash(-1)==hash(-2)' if collide else f'cgr-renumber-string:{s1}', 'the canonical string of the condensed graph depends on the (consistent) numbering of the sides',
                           {'roles': rx_repr(rxn), 'renumbered': rr}, s2, s1, 'consistent renumbering of both sides',
                           replay_py=REPLAY_HEAD + f"print(str(~build({rx_repr(rxn)!r})))\nprint(str(~build({rr!r})))")
         return
